@@ -5,6 +5,7 @@ from fractions import Fraction
 
 from .. import astq
 from .. import sym as S
+from ..report import MISSING
 from ..model import AnalysisError
 from ..symeval import SymEval
 from . import cli_common as cc
@@ -57,7 +58,7 @@ def halflen(ctx, R="R-C06-halflen"):
         # the array returned has that size
         allocs = [n for n in f.body_nodes() if isinstance(n, ast.Assign) and astq.is_name(n.targets[0], "res") and isinstance(n.value, ast.Call)]
         ok = len(allocs) == 1 and astq.text(allocs[0].value.args[0]) == "dft_size"
-        ctx.check(ok, R, f, allocs[0] if allocs else f.node, "%s: the result buffer has dft_size bins" % name)
+        ctx.check(ok, R, f, allocs[0] if allocs else MISSING(f.node), "%s: the result buffer has dft_size bins" % name)
 
 
 def nyquist_bound(ctx, R="R-C06-nyquist-bound"):
@@ -139,7 +140,7 @@ def same_formula(ctx, R="R-C06-same-formula"):
             a = [n for n in full.body_nodes() if isinstance(n, ast.Assign) and astq.is_name(n.targets[0], var)]
             b = [n for n in tr.body_nodes() if isinstance(n, ast.Assign) and astq.is_name(n.targets[0], var)]
             ok = len(a) == 1 and len(b) == 1 and astq.text(a[0].value) == astq.text(b[0].value)
-            ctx.check(ok, R, tr, b[0] if b else tr.node, "%s: %s is computed identically in both methods" % (name, var),
+            ctx.check(ok, R, tr, b[0] if b else MISSING(tr.node), "%s: %s is computed identically in both methods" % (name, var),
                       "%s: %s differs between get_frequency_response (%s) and get_truncated_response (%s)" % (
                           name, var, astq.text(a[0].value) if a else None, astq.text(b[0].value) if b else None))
         # index of the stored value: res[idx] vs res[idx - left_idx]
@@ -172,17 +173,17 @@ def same_formula(ctx, R="R-C06-same-formula"):
         f = prog.own_method(c, meth)
         hs = [x for x in astq.func_calls(f) if astq.attr_call(x, "_H")]
         ok = len(hs) == 1 and astq.text(hs[0].args[1]) == "filt_idx"
-        ctx.check(ok, R, f, hs[0] if hs else f.node, "gammatone.%s evaluates the closed form _H for its own filter" % meth, "gammatone.%s does not call self._H(omega, filt_idx)" % meth)
+        ctx.check(ok, R, f, hs[0] if hs else MISSING(f.node), "gammatone.%s evaluates the closed form _H for its own filter" % meth, "gammatone.%s does not call self._H(omega, filt_idx)" % meth)
     f = prog.own_method(c, "get_truncated_response")
     om = [n for n in f.body_nodes() if isinstance(n, ast.Assign) and astq.is_name(n.targets[0], "omega")]
     am = [n for n in f.body_nodes() if isinstance(n, ast.AugAssign) and astq.is_name(n.target, "omega")]
-    ok = len(om) == 1 and astq.text(om[0].value).replace(" ", "") == "np.arange(left_idx,right_idx+1,dtype=np.float64)" and len(am) == 1 and \
-        astq.text(am[0].value).replace(" ", "") == "2*np.pi/width" and isinstance(am[0].op, ast.Mult)
-    ctx.check(ok, R, f, om[0] if om else f.node, "gammatone: truncated bins left_idx..right_idx sit at 2 pi idx / width")
+    ok = len(om) == 1 and astq.eq_text(om[0].value, "np.arange(left_idx,right_idx+1,dtype=np.float64)") and len(am) == 1 and \
+        astq.eq_text(am[0].value, "2*np.pi/width") and isinstance(am[0].op, ast.Mult)
+    ctx.check(ok, R, f, om[0] if om else MISSING(f.node), "gammatone: truncated bins left_idx..right_idx sit at 2 pi idx / width")
     f = prog.own_method(c, "get_frequency_response")
     om = [n for n in f.body_nodes() if isinstance(n, ast.Assign) and astq.is_name(n.targets[0], "omega")]
-    ok = len(om) == 1 and astq.text(om[0].value).replace(" ", "") == "np.arange(dft_size,dtype=np.float64)*2*np.pi/width"
-    ctx.check(ok, R, f, om[0] if om else f.node, "gammatone: full bins 0..dft_size-1 sit at 2 pi idx / width")
+    ok = len(om) == 1 and astq.eq_text(om[0].value, "np.arange(dft_size,dtype=np.float64)*2*np.pi/width")
+    ctx.check(ok, R, f, om[0] if om else MISSING(f.node), "gammatone: full bins 0..dft_size-1 sit at 2 pi idx / width")
     # bin bounds of Gabor / gammatone truncation
     for name, lo, hi in (("GaborFilterBank", "lowest_ang", "highest_ang"), ("ComplexGammatoneFilterBank", "left_sup", "right_sup")):
         f = prog.own_method(fc.bank(prog, name), "get_truncated_response")
@@ -196,7 +197,7 @@ def hermitian(ctx, R="R-C06-hermitian"):
     prog = ctx.prog
     for name in ("TriangularOverlappingFilterBank", "Fbank"):
         f = prog.own_method(fc.bank(prog, name), "get_frequency_response")
-        st = [n for n in f.body_nodes() if isinstance(n, ast.Assign) and astq.text(n.targets[0]).replace(" ", "") == "res[-idx]"]
+        st = [n for n in f.body_nodes() if isinstance(n, ast.Assign) and astq.eq_text(n.targets[0], "res[-idx]")]
         ctx.check(len(st) == 1, R, f, f.node, "%s: one mirrored store res[-idx]" % name, "%s has %d mirrored stores" % (name, len(st)))
         if len(st) != 1:
             continue
@@ -204,13 +205,13 @@ def hermitian(ctx, R="R-C06-hermitian"):
         g = [astq.text(a.test).replace(" ", "").replace("(", "").replace(")", "") for a in astq.ancestors(pm, st[0]) if isinstance(a, ast.If)]
         ctx.check(g[:1] in (["nothalfandnotself._analytic"], ["notself._analyticandnothalf"], ["nothalforself._analytic"]), R, f, st[0], "%s: negative frequencies are filled iff the full spectrum of a real bank is requested" % name,
                   "%s mirrored store is guarded by %s" % (name, g[:1]))
-        direct = [n for n in f.body_nodes() if isinstance(n, ast.Assign) and astq.text(n.targets[0]).replace(" ", "") == "res[idx]"]
+        direct = [n for n in f.body_nodes() if isinstance(n, ast.Assign) and astq.eq_text(n.targets[0], "res[idx]")]
         ok = len(direct) == 1 and astq.text(direct[0].value) == astq.text(st[0].value)
         ctx.check(ok, R, f, st[0], "%s: the mirrored bin gets the same value as the direct bin (real, even response)" % name,
                   "%s stores %s at res[idx] but %s at res[-idx]" % (name, astq.text(direct[0].value) if direct else None, astq.text(st[0].value)))
         lp = [n for n in f.body_nodes() if isinstance(n, ast.For) and astq.is_name(n.target, "idx")]
-        ok = len(lp) == 1 and astq.text(lp[0].iter).replace(" ", "") == "range(left_idx,min(dft_size,right_idx+1))"
-        ctx.check(ok, R, f, lp[0] if lp else f.node, "%s: bins left_idx..right_idx (clipped to the buffer) are filled" % name, "bin loop is %s" % (astq.text(lp[0].iter) if lp else None))
+        ok = len(lp) == 1 and astq.eq_text(lp[0].iter, "range(left_idx,min(dft_size,right_idx+1))")
+        ctx.check(ok, R, f, lp[0] if lp else MISSING(f.node), "%s: bins left_idx..right_idx (clipped to the buffer) are filled" % name, "bin loop is %s" % (astq.text(lp[0].iter) if lp else None))
 
 
 def purity(ctx, R="R-C06-pure"):
